@@ -11,6 +11,7 @@ A device lives in virtual time (`vlib.sched.Scheduler`): blocking reads are sche
     script = {
       'eol': '\n',                       # appended by the device to every reply ('' for byte devices)
       'cmds': {'A': {'reply': 'a1', 'delay': 0.2, 'chunks': [1, 2], 'gap': 0.05}, 'S': {'reply': None}},
+                                         # 'reply' may be a list: the k-th answer to that command (last element repeated)
       'default': {'reply': '{cmd}!', 'delay': 0.0},            # for commands not listed (None: silence)
       'unsolicited': [[1.5, 'junk\n'], ...],   # bytes the device emits by itself, seconds after the connect
       'close': {'send': 3, 'phase': 'before' | 'after_cmd' | 'mid_reply' | 'after_reply'} | {'at': 2.5} | None,
@@ -44,6 +45,13 @@ class Log:
     def who(self):
         me = self.sched.me()
         return me.name if me is not None else 'main'
+
+    def sync(self, label):
+        """a scheduling point of its own for an event a thread performs on shared state (otherwise the code between two
+        lock operations would be atomic for the scheduler and races inside it could never be explored).  Call it BEFORE
+        the effect is performed and logged (or AFTER both, for effects observed through a callback)."""
+        if self.sched.managed():
+            self.sched.yield_((label,))
 
     def add(self, e, t=None, **kw):
         tf = self.sched.now if t is None else t
@@ -107,6 +115,8 @@ class Device:
         self.nconnect = 0
         self.nsend = 0
         self.chans = []
+        self.uses = {}          # command -> number of times it was answered (for 'reply' given as a list)
+        self.send_kind = lambda: 'send'     # the harness may classify sends (e.g. 'isend': made by checkHWIdent)
         DEVICES[self.uri] = self
 
     def unregister(self):
@@ -114,6 +124,7 @@ class Device:
 
     # ---- host side entry points -------------------------------------------------------
     def connect(self):
+        self.sched.yield_(('connect',))
         i = self.nconnect
         self.nconnect += 1
         cid = len(self.chans)
@@ -154,7 +165,7 @@ class Device:
         self.nsend += 1
         now = self.sched.now
         text = data.decode('latin-1')
-        self.log.add('send', conn=ch.cid, data=text, n=n)
+        self.log.add(self.send_kind(), conn=ch.cid, data=text, n=n)
         if ch.eof_at is not None and ch.eof_at <= now:
             return              # the device is gone already: the bytes vanish (as a first write to a closed peer)
         cl = self.script.get('close') or {}
@@ -171,7 +182,16 @@ class Device:
             if phase is not None:
                 self._eof(ch, now)
             return
-        reply = spec['reply'].replace('{cmd}', key).replace('{n}', str(n)).encode('latin-1') + self.eol
+        rtext = spec['reply']
+        if isinstance(rtext, list):       # the k-th time the command is answered: element k (the last one from then on)
+            k = self.uses.get(key, 0)
+            self.uses[key] = k + 1
+            rtext = rtext[min(k, len(rtext) - 1)]
+            if rtext is None:
+                if phase is not None:
+                    self._eof(ch, now)
+                return
+        reply = rtext.replace('{cmd}', key).replace('{n}', str(n)).encode('latin-1') + self.eol
         chunks = []
         pos = 0
         for s in spec.get('chunks') or ():
@@ -205,6 +225,9 @@ class FakeConn(AsynConn):
 
     def disconnect(self):
         ch = self.connection
+        if ch is not None and ch.open:      # (not when called once more from __del__, at an arbitrary point)
+            self.dev.sched.yield_(('hclose',))
+            ch = self.connection
         if ch is not None and ch.open:
             ch.open = False
             try:
@@ -214,7 +237,11 @@ class FakeConn(AsynConn):
         self.connection = None
 
     def send(self, data):
-        self.dev.on_send(self.connection, data)
+        self.dev.sched.yield_(('send',))
+        ch = self.connection
+        if ch is None or not ch.open:       # closed on our side by another thread meanwhile
+            raise OSError('connection closed')
+        self.dev.on_send(ch, data)
 
     def _readable(self):
         return self.connection.readable(self.dev.sched.now)
@@ -236,8 +263,11 @@ class FakeConn(AsynConn):
         sched = self.dev.sched
         log = self.dev.log
         end = sched.now + self.timeout
+        sched.yield_(('recv', ch.cid))
         while True:
             now = sched.now
+            if not ch.open:     # closed on OUR side by another thread meanwhile: as a socket that was shut down
+                raise ConnectionClosed()
             if ch.items and ch.items[0][0] <= now:
                 data = ch.items.pop(0)[1]
                 log.add('recv', conn=ch.cid, out='data', data=data.decode('latin-1'))
@@ -255,4 +285,4 @@ class FakeConn(AsynConn):
             if not sched.managed():
                 sched.now += wait
                 continue
-            sched.block(('recv', ch.cid), lambda: ch.readable(sched.now), wait)
+            sched.block(('recv', ch.cid), lambda: ch.readable(sched.now) or not ch.open, wait)
